@@ -579,7 +579,8 @@ fn main() {
                    "treeify_threshold": c.treeify_threshold, "untreeify_threshold": c.untreeify_threshold,
                    "min_treeify_capacity": c.min_treeify_capacity, "min_transfer_stride": c.min_transfer_stride,
                    "resize_stamp_bits": c.resize_stamp_bits, "resize_stamp_shift": c.resize_stamp_shift,
-                   "max_resizers": c.max_resizers as i64, "ncpu": c.ncpu})
+                   "max_resizers": c.max_resizers as i64, "ncpu": c.ncpu,
+                   "stamps": (0..=30).map(|k| flurry::verif::resize_stamp(1usize << k) as i64).collect::<Vec<i64>>()})
             );
         }
         _ => {
